@@ -156,7 +156,7 @@ pub fn run(ctx: &mut Ctx) {
                     None => {}
                 }
                 ctx.rec.cover(&format!("{}|{}|{:?}", name, pat, ev.fired));
-                if var == 0 && pat == 0 && case % 9 == 0 {
+                if var < 16 && pat <= 1 {
                     if let Some(p) = &ev.post {
                         ctx.rec.sample("missing-args", &format!("{} [{}]: {}  =>  {}", name, desc.trim(), ev.pre.summary(), p.summary()));
                     }
